@@ -174,7 +174,9 @@ func encDyn(sb *strings.Builder, x interface{}) {
 		rv := reflect.ValueOf(x)
 		if rv.Kind() == reflect.Array && rv.Type().Elem().Kind() == reflect.Uint8 {
 			b := make([]byte, rv.Len())
-			reflect.Copy(reflect.ValueOf(b), rv)
+			for i := range b {
+				b[i] = byte(rv.Index(i).Uint())
+			}
 			sb.WriteString("BA:" + hx(b))
 			return
 		}
